@@ -14,6 +14,19 @@ RL = 'openfilter/filter_runtime/rolllog.py'
 STATE = ('logfiles', 'logfiles_size', 'read_idx', 'read_file', 'write_file')
 
 
+def _split_top(inner: str):
+    """split 'a, b' at the top-level comma"""
+    depth = 0
+    for i, ch in enumerate(inner):
+        if ch in '([{':
+            depth += 1
+        elif ch in ')]}':
+            depth -= 1
+        elif ch == ',' and depth == 0:
+            return [inner[:i], inner[i + 1:]]
+    return [inner]
+
+
 def cls_of(repo):
     return repo.find(f'{RL}::RollLog')
 
@@ -45,6 +58,14 @@ def r1(rr, repo):
     forced = True
     detail = []
     n = 0
+    coarse = []
+    # how does the timestamp enter the file name?  fnm_from_dats formats int(ts * 1_000_000): names have microsecond resolution
+    name_res = None
+    for st in nmod.tree.body:
+        if isinstance(st, ast.Assign) and isinstance(st.value, ast.Lambda) and any(U(t) == 'fnm_from_dats' for t in st.targets):
+            for c in ast.walk(st.value):
+                if isinstance(c, ast.Call) and U(c.func) == 'int' and c.args and isinstance(c.args[0], ast.BinOp) and isinstance(c.args[0].op, ast.Mult):
+                    name_res = ('int(', f'* {U(c.args[0].right)}')
     param = q.func_params(nfn)[1]
     for p in npaths:
         o = p.outcome
@@ -63,6 +84,8 @@ def r1(rr, repo):
         for k, v in p.pc:
             if k.startswith('ord(') and 'self.logfiles[-1].timestamp' in k:
                 inner = k[4:-1]
+                if name_res and not all(part.strip().startswith(name_res[0]) and name_res[1] in part for part in _split_top(inner)):
+                    coarse.append(k)   # compared at another resolution than the one the file name is built from
                 first_is_last = inner.startswith('int(self.logfiles[-1].timestamp') or inner.startswith('self.logfiles[-1].timestamp')
                 rel_new_vs_last = ({'<': '>', '>': '<', '=': '='}[v]) if first_is_last else v
                 above = rel_new_vs_last == '>'
@@ -71,6 +94,9 @@ def r1(rr, repo):
         if not ok:
             forced = False
             detail.append(f'{p.pc_text() or "unconditional"} => timestamp {U(T)[:80]}')
+    if coarse and not exclusive:
+        rr.violated('the "is the new timestamp above the newest file\'s" test compares raw timestamps although file names are built from truncated microseconds: two timestamps inside one microsecond pass the test and still produce the same name (the existing file is truncated)',
+                    nmod, nfn, witness=coarse[0][:200], key='name-resolution')
     if exclusive:
         rr.holds('new log files are opened in exclusive mode', mod, next(iter(opens.values()))[0].node, key='exclusive')
     elif forced and n:
